@@ -141,7 +141,7 @@ theorem splitSign_digit (b : UInt8) (r : Bytes) (hb : isDigit b = true) :
   · rename_i heq; simp at heq; exact absurd heq.1 hne.2.1
   · rfl
 
-theorem parseInt_natToDec (bits : Nat) (n : Nat) (h : (n : Int) < (2 : Int) ^ (bits - 1)) :
+theorem parseInt_natToDec (bits : Nat) (n : Nat) (h : (n : Int) < limOf bits) :
     parseInt bits (natToDec n) = some (n : Int) := by
   obtain ⟨b, r, hbr, hb⟩ := natToDec_head_isDigit n
   have had := natToDec_allDigits n
@@ -152,13 +152,28 @@ theorem parseInt_natToDec (bits : Nat) (n : Nat) (h : (n : Int) < (2 : Int) ^ (b
   simp only [had, hv, Bool.not_true, Bool.false_eq_true, ↓reduceIte]
   simp [h]
 
-theorem parseInt_neg_natToDec (bits : Nat) (n : Nat) (h : (n : Int) ≤ (2 : Int) ^ (bits - 1)) :
+theorem parseInt_neg_natToDec (bits : Nat) (n : Nat) (h : (n : Int) ≤ limOf bits) :
     parseInt bits (45 :: natToDec n) = some (-(n : Int)) := by
   have had := natToDec_allDigits n
   have hv := digitsVal_natToDec n
   unfold parseInt
   simp only [splitSign, had, hv, Bool.not_true, Bool.false_eq_true, ↓reduceIte]
   simp [h]
+
+theorem parseInt_digits (ds : Bytes) (h : allDigits ds = true) (bits : Nat) :
+    parseInt bits ds =
+      if (digitsVal ds : Int) < limOf bits then some (digitsVal ds : Int) else none := by
+  have hne : ds ≠ [] := by
+    intro e; subst e; simp [allDigits] at h
+  obtain ⟨b, r, rfl⟩ := List.exists_cons_of_ne_nil hne
+  have hb : isDigit b = true := by
+    simp [allDigits] at h; exact h.1
+  unfold parseInt
+  rw [splitSign_digit b r hb]
+  simp only [h, Bool.not_true, Bool.false_eq_true, ↓reduceIte]
+
+theorem limOf_32 : limOf 32 = 2147483648 := by decide
+theorem limOf_64 : limOf 64 = 9223372036854775808 := by decide
 
 theorem natToDec_no_colon (n : Nat) : ∀ x ∈ natToDec n, x ≠ 58 := by
   intro x hx
